@@ -460,6 +460,12 @@ impl DateFilter for ds::MonthdayRange {
                 let year = date.year();
                 let margin = offsets_years_margin(start_offset, end_offset);
 
+                if end.has_year() {
+                    // The end only exists on a single year, which may be outside of the years
+                    // considered below: no hint can be given.
+                    return None;
+                }
+
                 if *start == Date::md(29, Month::February) && *end == Date::md(29, Month::February)
                 {
                     return Some(next_change_from_intervals(
